@@ -202,6 +202,8 @@ def run(tier: str) -> int:
     inline.judge(chk, tier, "C01")
     from harness import table
     table.judge(chk, tier, "C01")
+    from harness import link
+    link.judge(chk, tier, "C01")
     for id_ in list(metas)[:: max(1, len(metas) // 4)][:4]:
         chk.sample({k: metas[id_][k] for k in ("fam", "toks", "src", "opts", "out")})
     chk.exhaustive = True
